@@ -128,6 +128,17 @@ impl syn::visit_mut::VisitMut for DepsParamToSelf<'_> {
     }
 }
 
+/// The type inside parentheses or inside the invisible group of a `macro_rules!` `$t:ty` fragment
+pub fn peel_type(mut ty: &syn::Type) -> &syn::Type {
+    loop {
+        ty = match ty {
+            syn::Type::Group(group) => group.elem.as_ref(),
+            syn::Type::Paren(paren) => paren.elem.as_ref(),
+            _ => return ty,
+        }
+    }
+}
+
 pub enum ImplReceiverKind {
     // (&self, ..)
     SelfRef,
